@@ -121,6 +121,17 @@ def mutate(s, rng):
     return s + rng.choice(["", ".", "-", "+", "~", " ", ".0", "-r", "_p"])
 
 
+def bump_number(s, rng):
+    """move one run of digits (the last one, mostly) by a small amount"""
+    import re
+    runs = [m.span() for m in re.finditer(r"[0-9]+", s)]
+    if not runs:
+        return s
+    i, j = runs[-1] if rng.random() < 0.6 else rng.choice(runs)
+    v = int(s[i:j]) + rng.choice([1, 2, 2, 3, 5, 10, -1, -2])
+    return s[:i] + str(max(v, 0)) + s[j:]
+
+
 def gen_strings(name, rng, n, ascii_only=True):
     out = []
     for _ in range(n):
@@ -164,6 +175,15 @@ def gen_pairs(name, rng, n):
                 b = S.RESPELL[name](a, rng)
             except Exception:  # noqa: BLE001
                 b = a
+        elif r < 0.43:
+            # equal up to spelling, then one numeric field (mostly the last) moved by a small amount
+            try:
+                b = S.RESPELL[name](a, rng)
+            except Exception:  # noqa: BLE001
+                b = a
+            b = bump_number(b, rng)
+            if rng.random() < 0.3:
+                a = bump_number(a, rng)
         elif r < 0.5:
             b = mutate(a, rng)
         elif r < 0.75 and pool:
